@@ -10,6 +10,8 @@ package main
 import (
 	"fmt"
 	"math"
+	"runtime/debug"
+	"strings"
 	"time"
 
 	mcp "trpc.group/trpc-go/trpc-mcp-go"
@@ -17,6 +19,8 @@ import (
 	"verifharness/lib/kit"
 	"verifharness/lib/vh"
 )
+
+var panicked bool
 
 func main() {
 	kit.MaybeServeStdioChild()
@@ -34,14 +38,37 @@ func main() {
 	if err != nil {
 		r.Fatal("bound-not-listening socket: %v", err)
 	}
-	partOptions(r, refused)
-	partE2E(r, refused)
-	partPhases(r, refused)
+	// A panic of the library client in the monitor's own goroutine (seen with a configuration that made the retry
+	// loop run zero times: the request was never sent and Initialize dereferenced a nil answer) ends that part with
+	// a violation naming the first library frame; the other parts still run.
+	guardPart := func(name string, f func()) {
+		defer func() {
+			if p := recover(); p != nil {
+				st := string(debug.Stack())
+				site := "unknown"
+				for _, l := range strings.Split(st, "\n") {
+					if strings.HasPrefix(l, "trpc.group/trpc-go/trpc-mcp-go") {
+						if i := strings.LastIndex(l, "("); i > 0 {
+							l = l[:i]
+						}
+						site = strings.TrimPrefix(l, "trpc.group/trpc-go/trpc-mcp-go")
+						break
+					}
+				}
+				r.Violation(fmt.Sprintf("C17|%s|client-panic|%s", name, site), fmt.Sprintf("part %s: the library client panicked in the caller's goroutine: %v", name, p), map[string]interface{}{"stack": st})
+				panicked = true
+			}
+		}()
+		f()
+	}
+	guardPart("options", func() { partOptions(r, refused) })
+	guardPart("e2e", func() { partE2E(r, refused) })
+	guardPart("phases", func() { partPhases(r, refused) })
 
 	for _, c := range []string{"phases_cases", "phases_cases_with_reattempt", "phases_cases_with_one_attempt", "options_calls_streamable", "options_calls_legacy-sse", "options_sequences_with_retry", "options_waits_compared", "options_real_gaps_bounded_below", "options_real_wait_calls",
 		"direct_scripts_enumerated", "direct_scripts_sampled", "direct_waits_compared", "direct_sequences_with_retry",
 		"cancellations_during_wait", "e2e_scripts_streamable", "e2e_scripts_legacy-sse", "e2e_sequences_with_retry", "validate_configs"} {
-		if r.Counter(c) == 0 {
+		if r.Counter(c) == 0 && !panicked {
 			r.Fatal("vacuous run: monitor counter %s is 0", c)
 		}
 	}
